@@ -2,7 +2,7 @@
 (DESIGN.md §3 C10)."""
 import json, os, re, collections
 
-READY = False
+READY = True
 
 META = {
     "technique": "Lean 4 proof (model of the root tokenizer = declarative whitespace rules on segment lists, for every setting, marker placement, line ending and every well-formed delimiter set under a leftmost-longest start search) + enumerated/sampled correspondence of model, Lean spec, an independent Python implementation of the rules and the real engine (tokenizer and Environment::render_str)",
@@ -228,23 +228,27 @@ def seg_site(fam, items, tlk):
 
 # ------------------------------------------------------------------ line statements, second opinion
 def line_expect(tlk, nl, lines):
+    """whole statement/comment lines vanish, a trailing line comment takes the rest of its line with
+    it; the template's final line break goes unless keep_trailing_newline"""
     nlc = {"n": "\n", "rn": "\r\n", "r": "\r"}[nl]
     items = lines.split(";")
     no_final = items and items[-1] == "!"
     items = [x for x in items if x != "!"]
-    out, last_is_text_nl = [], False
+    out, last_src_is_text_nl = [], False
     for i, it in enumerate(items):
         this_nl = "" if (i + 1 == len(items) and no_final) else nlc
         if it[0] == "X":
-            out.append(unhex(it[1:]).replace("{{ v }}", "V") + this_nl)
-            last_is_text_nl = this_nl != ""
+            t = unhex(it[1:])
+            out.append(t.replace("\x01", "V") + this_nl)
+            if t + this_nl != "":
+                last_src_is_text_nl = this_nl != ""
         elif it[0] == "Z":
-            out.append(unhex(it[1:].split(".")[0]).replace("{{ v }}", "V"))
-            last_is_text_nl = False
+            out.append(unhex(it[1:].split(".")[0]).replace("\x01", "V"))
+            last_src_is_text_nl = False
         else:
-            last_is_text_nl = False
+            last_src_is_text_nl = False
     s = "".join(out)
-    if tlk[2] == "0" and last_is_text_nl:
+    if tlk[2] == "0" and last_src_is_text_nl:
         s = s[: len(s) - len(nlc)]
     return s
 
@@ -344,6 +348,13 @@ def check_lines(r, lines, model, verbose=False):
                     r.broken.append(f"Lean specRender and the Python rules disagree on {case}: {spec_lean!r} vs {spec_py!r}")
             if ml.get("free") == "1" and mtok == "unsupported":
                 r.broken.append(f"model does not cover a delimiter-free case: {case}")
+            if ml.get("free") == "1" and ml.get("good") == "1":
+                # an instance of theorem lex_eq_spec, evaluated by the compiled model
+                r.hist["theorem"]["instances of lex_eq_spec (goodDelims, delimFree)"] += 1
+                if render_tok(mtok) != spec_lean:
+                    r.broken.append(f"compiled model contradicts lex_eq_spec on {case}")
+            else:
+                r.hist["theorem"]["outside the hypotheses (line prefixes / weaker freeness): differential only"] += 1
             site = seg_site(fam, items, tlk)
             got = render_tok(tok)
             if got != spec_py:
